@@ -66,9 +66,9 @@ theorem later_calls_unaffected (u : UC) (l : Loader) (bad : Text) (later : List 
   simp [Loader.inputs, input_atomic u l bad h]
 
 /-- the documented outcome of every build: it succeeds, or it ends in the metamodel exception caused by a CREATE
-    TABLE (duplicate class), a CREATE UNIQUE INDEX with attributes (unknown class), a CREATE ROP (unknown class, key
+    TABLE (duplicate class, or two attribute names that coincide after upper-casing), a CREATE UNIQUE INDEX with attributes (unknown class), a CREATE ROP (unknown class, key
     lists of different length, unknown identifying attribute) or an INSERT into a class with an attribute of unknown
-    type; or it ends in the parsing exception caused by an INSERT (named INSERT with different numbers of names and
+    type or a named INSERT into an undeclared class with two names that coincide after upper-casing; or it ends in the parsing exception caused by an INSERT (named INSERT with different numbers of names and
     values, or a value that cannot be deserialised for the type of its column) -/
 theorem build_outcome_total (u : UC) (stmts : List Stmt) :
     (∃ s, build u stmts = .ok s) ∨
@@ -81,7 +81,8 @@ theorem build_outcome_total (u : UC) (stmts : List Stmt) :
     · subst he; exact Or.inr (Or.inl ⟨rfl, hc⟩)
     · subst he; exact Or.inr (Or.inr ⟨rfl, hc⟩)
 
-/-- BUILD SUCCESS: a statement list in which class names are distinct after upper-casing, identifiers (with attributes)
+/-- BUILD SUCCESS: a statement list in which class names are distinct after upper-casing, and so are the attribute
+    names within every CREATE TABLE (`BuildOk.attrNames` — `define_class` raises otherwise), identifiers (with attributes)
     and associations name declared classes, key lists have equal length and target keys are attributes of the target
     class, and every INSERT is positional into a declared class with core attribute types and readable values, builds;
     the built state holds exactly the declared classes in statement order (attributes as declared), each with the
@@ -95,34 +96,51 @@ theorem build_success (u : UC) (stmts : List Stmt) (h : BuildOk u stmts) :
   ⟨build_ok u stmts h, builtClass_eq u stmts⟩
 
 /-- COMPLETENESS, definition phases: each documented cause makes the build end in the metamodel exception —
-    two class names equal after upper-casing; an identifier (with attributes) for an undeclared class; an association
+    two class names equal after upper-casing; a class with two attribute names equal after upper-casing; an identifier (with attributes) for an undeclared class; an association
     whose source or target class is undeclared, whose key lists differ in length, or whose target class lacks a target
     key (`RopBad`) — the latter two when the earlier phases succeed -/
 theorem build_outcome_complete_meta (u : UC) (stmts : List Stmt) :
     (¬ KindsDistinct u (newTables stmts) → build u stmts = .error .metaErr) ∧
-    (KindsDistinct u (newTables stmts) →
+    ((∃ c ∈ newTables stmts, attrNamesOk u c.attrs = false) → build u stmts = .error .metaErr) ∧
+    (KindsDistinct u (newTables stmts) → (∀ c ∈ newTables stmts, attrNamesOk u c.attrs = true) →
       (∃ kind name attrs, Stmt.createIndex kind name attrs ∈ stmts ∧ attrs ≠ [] ∧
         ∀ c ∈ newTables stmts, sameKind u c.kind kind = false) → build u stmts = .error .metaErr) ∧
-    (KindsDistinct u (newTables stmts) →
+    (KindsDistinct u (newTables stmts) → (∀ c ∈ newTables stmts, attrNamesOk u c.attrs = true) →
       (∀ kind name attrs, Stmt.createIndex kind name attrs ∈ stmts → attrs ≠ [] → ∃ c ∈ newTables stmts, sameKind u c.kind kind = true) →
       (∃ rel sk sc skeys sp tk tc tkeys tp, Stmt.createRop rel sk sc skeys sp tk tc tkeys tp ∈ stmts ∧
         RopBad u (newTables stmts) sk skeys tk tkeys) → build u stmts = .error .metaErr) :=
-  ⟨build_fails_duplicate u stmts, build_fails_index u stmts, build_fails_rop u stmts⟩
+  ⟨build_fails_duplicate u stmts, build_fails_attr_names u stmts, build_fails_index u stmts, build_fails_rop u stmts⟩
 
-/-- the first phase succeeds EXACTLY when the declared class names are distinct after upper-casing -/
+/-- the first phase succeeds EXACTLY when the declared class names are distinct after upper-casing and no CREATE TABLE
+    states two attribute names that coincide after upper-casing (`attrNamesOk`, which decides `Nodup` of the upper-cased
+    names: `attr_names_check`) -/
 theorem classes_phase_iff (u : UC) (stmts : List Stmt) :
-    (∃ s, popClasses u stmts BState.empty = .ok s) ↔ KindsDistinct u (newTables stmts) := popClasses_ok_iff u stmts
+    (∃ s, popClasses u stmts BState.empty = .ok s) ↔
+      (KindsDistinct u (newTables stmts) ∧ ∀ c ∈ newTables stmts, attrNamesOk u c.attrs = true) := popClasses_ok_iff u stmts
+
+/-- what the attribute loop of `define_class` decides, and that the names `_0`, `_1`, … which the loader invents for a
+    positional INSERT into an undeclared class always pass it -/
+theorem attr_names_check (u : UC) (attrs : List (Name × Name)) (values : List Text) :
+    (attrNamesOk u attrs = true ↔ (attrs.map fun a => u.upper a.1).Nodup) ∧
+    attrNamesOk u (inferredAttrs u (positionalNames values.length) values) = true :=
+  ⟨attrNamesOk_iff u attrs, attrNamesOk_positional u values⟩
 
 /-- COMPLETENESS, one INSERT (in whatever state the earlier statements left): a named INSERT with different numbers of
-    names and values raises the parsing exception; a positional INSERT into a declared class raises the metamodel
+    names and values raises the parsing exception; a named INSERT with as many names as values into an undeclared class
+    raises the metamodel exception if two of its names coincide after upper-casing (`define_class` rejects the inferred
+    class); a positional INSERT into a declared class raises the metamodel
     exception if a non-referential attribute has an unknown type, and the parsing exception if the types are known and
     some value cannot be read for the type of its column -/
 theorem insert_outcome_complete (u : UC) (s : BState) (kind : Name) (values : List Text) :
     (∀ n ns, (n :: ns).length ≠ values.length → popInstance u s kind values (some (n :: ns)) = .error .parseErr) ∧
+    (∀ n ns, (n :: ns).length = values.length → s.find? u kind = none →
+      attrNamesOk u (inferredAttrs u (n :: ns) values) = false →
+      popInstance u s kind values (some (n :: ns)) = .error .metaErr) ∧
     (∀ c, s.find? u kind = some c → newRowOk u c = false → popInstance u s kind values none = .error .metaErr) ∧
     (∀ c, s.find? u kind = some c → newRowOk u c = true → ¬ CellsOk u c.attrs values →
       popInstance u s kind values none = .error .parseErr) :=
   ⟨fun n ns h => popInstance_arity u s kind values n ns h,
+   fun n ns hl hf hc => popInstance_name_clash u s kind values n ns hl hf hc,
    fun c hf hr => popInstance_unknown_type u s kind values c hf hr,
    fun c hf hr hc => popInstance_bad_value u s kind values c hf hr _ (positionalCells_bad u c c.attrs values hc)⟩
 
@@ -183,12 +201,31 @@ example (u : UC) : classify u [] = .accepted [] := by simp [classify, lex_nil, p
 
 /-- a duplicate class ends the build in the metamodel exception -/
 example (u : UC) : build u [.createTable ['A'] [], .createTable ['A'] []] = .error .metaErr := by
-  simp [build, popClasses, defineClass, BState.find?, BState.empty]
+  simp [build, popClasses, defineClass, BState.find?, BState.empty, attrNamesOk, distinctB]
+
+/-- two attribute names that differ only in letter case end the build in the metamodel exception (audit C12#3c) -/
+example (u : UC) : build u [.createTable ['A'] [(['X'], "INTEGER".toList), (['x'], "INTEGER".toList)],
+    .insert ['A'] [['1'], ['2']] none] = .error .metaErr := by
+  apply build_fails_attr_names
+  refine ⟨_, List.mem_cons_self, ?_⟩
+  have e : u.upper ['x'] = ['X'] := by simp [UC.upper, UC.up, asciiUpper, isAsciiLower]
+  have e' : u.upper ['X'] = ['X'] := by simp [UC.upper, UC.up, asciiUpper, isAsciiLower]
+  simp [attrNamesOk, distinctB, e, e']
+
+/-- a named INSERT into an undeclared class with the names `a`, `A` ends the build in the metamodel exception -/
+example (u : UC) : popInstance u BState.empty ['K'] [['1'], ['2']] (some [['a'], ['A']]) = .error .metaErr := by
+  apply popInstance_name_clash u BState.empty ['K'] [['1'], ['2']] ['a'] [['A']] rfl (by simp [BState.find?, BState.empty])
+  have e : u.upper ['a'] = ['A'] := by simp [UC.upper, UC.up, asciiUpper, isAsciiLower]
+  have e' : u.upper ['A'] = ['A'] := by simp [UC.upper, UC.up, asciiUpper, isAsciiLower]
+  simp [attrNamesOk, distinctB, inferredAttrs, e, e']
 
 /-- a statement list that meets `BuildOk`: one class, one identifier, one reflexive association, one row -/
 example : BuildOk UC.ascii [.createTable ['A'] [(['i'], "INTEGER".toList)], .createIndex ['A'] ['I'] [['i']],
     .createRop ['R', '1'] ['A'] ['1'] [['i']] [] ['A'] ['1'] [['i']] [], .insert ['A'] [['7']] none] := by
-  refine ⟨by unfold KindsDistinct; decide, ?_, ?_, ?_⟩
+  refine ⟨by unfold KindsDistinct; decide, ?_, ?_, ?_, ?_⟩
+  · intro c hc
+    simp only [newTables, List.mem_singleton] at hc; subst hc
+    decide
   · intro kind name attrs hm _
     simp only [List.mem_cons, List.mem_nil_iff, or_false, reduceCtorEq, false_or, Stmt.createIndex.injEq] at hm
     obtain ⟨rfl, _, _⟩ := hm
